@@ -97,7 +97,11 @@ func (g *gen) deferDir() string {
 	if !g.o.Defer || !g.t.Bool(1, 2, "defer?") {
 		return ""
 	}
-	switch g.t.Choose(6, "deferkind") {
+	switch g.t.Choose(7, "deferkind") {
+	case 6:
+		// a NULLABLE variable, sent as null or not at all (the prelude declares if: Boolean)
+		g.useVar["n"] = true
+		return " @defer(if:$n)"
 	case 0:
 		return " @defer"
 	case 1:
@@ -260,6 +264,12 @@ func Generate(s *ast.Schema, t *core.Tape, o GenOpts) (op Op, discarded int, ok 
 		if g.useVar["f"] {
 			vars = append(vars, "$f:Boolean!")
 			vmap["f"] = false
+		}
+		if g.useVar["n"] {
+			vars = append(vars, "$n:Boolean")
+			if t.Bool(1, 2, "null-or-absent") {
+				vmap["n"] = nil
+			}
 		}
 		q := kw
 		if len(vars) > 0 {
